@@ -540,6 +540,85 @@ def run_obligation(ob, table, outdir):
     return r
 
 
+def dump_mir(work, scratch):
+    """optimized MIR of the pdf crate, from the scratch copy of /repo's working tree"""
+    out = os.path.join(scratch, "pdf.mir")
+    if os.path.exists(out):
+        return out
+    env = dict(os.environ)
+    env["CARGO_NET_OFFLINE"] = "true"
+    env["CARGO_TARGET_DIR"] = os.path.join(scratch, "mt")
+    env.pop("RUSTFLAGS", None)
+    cmd = ["cargo", "+nightly", "rustc", "--offline", "--lib", "--", "-Zunpretty=mir", "-C", "debug-assertions=off",
+           "-C", "overflow-checks=on", "-Zmir-opt-level=2", "-Zinline-mir=yes", "-Zinline-mir-threshold=500",
+           "-Zinline-mir-hint-threshold=500"]
+    with open(out, "wb") as f:
+        p = subprocess.run(cmd, cwd=os.path.join(work, "pdf"), env=env, stdout=f, stderr=subprocess.PIPE, timeout=1800)
+    if p.returncode != 0 or os.path.getsize(out) < 1000:
+        raise RuntimeError("MIR dump failed: " + p.stderr.decode("utf-8", "replace")[-1500:])
+    return out
+
+
+def run_m2s_obligation(ob, work, scratch, seed, replayer=None):
+    """Engine M: MIR -> SMT-LIB -> cvc5 (int-blasting). Same verdict vocabulary as run_obligation."""
+    sys.path.insert(0, os.path.join(VERIF, "mir2smt"))
+    import m2s
+    t0 = time.time()
+    r = {"name": ob["name"], "verdict": "inconclusive", "reason": "", "wall_s": 0.0, "engine": "mir2smt+cvc5"}
+    try:
+        mirp = dump_mir(work, scratch)
+        mir = m2s.Mir(mirp)
+        q = m2s.QUERIES[ob["query"]](mir)
+        r.update({"paths": q["paths"], "overflow_obligations": q["overflow_obligations"], "functions": q["functions"],
+                  "smt_bytes": len(q["smt"]), "vccs": q["paths"] + q["overflow_obligations"]})
+        bad = m2s.validate_translator(mir)
+        r["translator_vectors"] = len(m2s.VECTORS)
+        r["translator_vectors_matching_recorded_outputs"] = len(m2s.VECTORS) - len(bad)
+        if bad and replayer is not None:
+            # the tree no longer produces the recorded outputs (changed code, or a translator problem): compare the encoding
+            # with the NATIVE functions of the current tree on the same inputs
+            still_bad = []
+            for fn, inp, want, got in bad:
+                data = bytes([0 if fn == "base85_chunk" else 1] + (list(inp) + [0] * 5)[:5])
+                st_, out_ = replayer.replay("enc_m_eval", data)
+                mm = re.search(r"M2S-OUT (None|Some\(\[([0-9, ]*)\]\))", out_)
+                native = None
+                if mm and mm.group(1) != "None":
+                    native = [int(x) for x in mm.group(2).split(",") if x.strip()]
+                if not mm or native != got:
+                    still_bad.append((fn, inp, native, got))
+            r["translator_native_comparison"] = "%d vectors re-checked against the native build, %d disagree" % (len(bad), len(still_bad))
+            if still_bad:
+                r["reason"] = "translator validation failed: encoding and native code disagree: %r" % (still_bad[:2],)
+                return r
+        vac, _, _ = m2s.solve(q["vacuity"], 120, seed)
+        r["vacuity_check"] = vac
+        if vac != "sat":
+            r["reason"] = "vacuity: assumptions alone are not satisfiable (%s)" % vac
+            return r
+        st, model, dt = m2s.solve(q["smt"], ob["timeout"], seed, want=q["inputs"])
+        r["solver_s"] = round(dt, 2)
+        r["solver"] = "cvc5 --solve-bv-as-int=sum"
+        z, zdt = m2s.cross_check_z3(q["smt"], 20 if ob.get("tier") == "quick" else 120)
+        r["z3_cross_check"] = "%s (%.0fs)" % (z, zdt)
+        if st == "unsat" and z != "sat":
+            r["verdict"] = "pass"
+            r["harness_assertions_reachable"] = 1
+        elif st == "sat":
+            r["verdict"] = "fail"
+            r["model"] = model
+            r["failed"] = [{"property": ob["query"], "description": "SMT query satisfiable: counterexample %r" % model,
+                            "location": "mir2smt"}]
+            r["reason"] = "counterexample %r" % model
+            r["_m2s_bytes"] = bytes(model.get(k, 0) & 0xff for k in q["inputs"])
+        else:
+            r["reason"] = "solver answered %s (z3: %s)" % (st, z)
+    except Exception as e:  # noqa
+        r["reason"] = "mir2smt: %r" % (e,)
+    r["wall_s"] = time.time() - t0
+    return r
+
+
 def get_trace(r, ob, outdir):
     """Second CBMC run restricted to the first failing property, with --trace."""
     prop = r["failed"][0]["property"]
@@ -679,7 +758,7 @@ def main():
         inject(work, files, kf_active)
         seed_target(kt)
         log("[kdrive] %s/%s: %d obligations, harness files: %s" % (prop, tier, len(obs), ", ".join(files)))
-        table, cg_s, cg_out = codegen(work, kt, sorted({o.get("harness", o["name"]) for o in obs}), os.path.join(scratch, "codegen.log"))
+        table, cg_s, cg_out = codegen(work, kt, sorted({o.get("harness", o["name"]) for o in obs if o.get("engine") != "m2s"} or {"enc_paeth_spec"}), os.path.join(scratch, "codegen.log"))
         if table is None:
             log("[kdrive] harness compilation failed (inconclusive):")
             log("\n".join(l for l in cg_out.splitlines() if "error" in l.lower())[:3000])
@@ -693,9 +772,11 @@ def main():
         if heavy:
             workers = min(workers, 8)
         results = {}
+        replayer = Replayer(scratch, files, kf_active)
         with cf.ThreadPoolExecutor(max_workers=workers) as ex:
-            futs = {ex.submit(run_obligation, o, table, outdir): o for o in
-                    sorted(obs, key=lambda o: -o["timeout"])}
+            futs = {(ex.submit(run_m2s_obligation, o, work, scratch, seed, replayer) if o.get("engine") == "m2s"
+                     else ex.submit(run_obligation, o, table, outdir)): o
+                    for o in sorted(obs, key=lambda o: -o["timeout"])}
             for f in cf.as_completed(futs):
                 o = futs[f]
                 try:
@@ -712,7 +793,6 @@ def main():
         known_lines = []
         inconclusive = [r for r in results.values() if r["verdict"] == "inconclusive"]
         failing = [o for o in obs if results[o["name"]]["verdict"] == "fail"]
-        replayer = Replayer(scratch, files, kf_active)
         by_witness = {k.get("witness"): k for k in known if k.get("witness")}
         for o in failing:
             r = results[o["name"]]
@@ -723,7 +803,9 @@ def main():
                     known_lines.append("KNOWN-FINDING: property=%s %s" % (prop, k.get("what", k.get("key"))))
                     continue
             data, vals = (None, None)
-            if o.get("replay", True):
+            if o.get("engine") == "m2s":
+                data, vals = r.get("_m2s_bytes"), [{"fn": "model", "bytes": (r.get("_m2s_bytes") or b"").hex()}]
+            elif o.get("replay", True):
                 data, vals = get_trace(r, o, outdir)
             r["nondet_values"] = vals
             if data is None:
@@ -731,10 +813,11 @@ def main():
                 r["reason"] = "counterexample could not be extracted for replay: " + r["reason"]
                 inconclusive.append(r)
                 continue
-            st, outtxt = replayer.replay(o["name"], data, release=False, hang=bool(r.get("hang")))
+            rname = o.get("replay_harness", o.get("harness", o["name"]))
+            st, outtxt = replayer.replay(rname, data, release=False, hang=bool(r.get("hang")))
             r["replay_dev"] = st
             if st != "reproduced":
-                st2, outtxt2 = replayer.replay(o["name"], data, release=True, hang=bool(r.get("hang")))
+                st2, outtxt2 = replayer.replay(rname, data, release=True, hang=bool(r.get("hang")))
                 r["replay_release"] = st2
                 if st2 == "reproduced":
                     st, outtxt = st2, outtxt2
